@@ -156,6 +156,15 @@ def noDupPairs : List Sample → Bool
   | [] => true
   | s :: t => !(t.any (fun x => x.ftag = s.ftag && x.rtag = s.rtag)) && noDupPairs t
 
+/-- `CheckPrimerUnicity`: no primer is used twice in the sheet (as forward or reverse primer of any
+marker); otherwise the sample sheet is rejected -/
+def allDistinct : List String → Bool
+  | [] => true
+  | x :: xs => !xs.contains x && allDistinct xs
+
+def primerUnicity (primers : List (String × String)) : Bool :=
+  allDistinct (primers.flatMap (fun p => [p.1, p.2]))
+
 /-- which side of the marker an extractor serves -/
 structure Side where
   taglen : Int
